@@ -46,7 +46,7 @@ void view(Out& o, const char* name, const Payload& p, const void* ptr, size_t le
 }
 
 // touch every byte a view describes: under ASan / guard pages an out-of-bounds view ends the worker
-volatile unsigned sink;
+thread_local volatile unsigned sink;
 void touch(const void* ptr, size_t len)
 {
     const uint8_t* p = static_cast<const uint8_t*>(ptr);
